@@ -43,8 +43,7 @@ MIRRORED = [
     ('mitxgraders/helpers/math_helpers.py', 'MathMixin.compare_evaluations'),
     ('mitxgraders/helpers/math_helpers.py', 'MathMixin.consolidate_results'),
 ]
-REFUTED = ['C16_between_iff_refuted', 'C16_congruence_iff_refuted', 'C16_span_iff_refuted',
-           'C16_linear_zero_rule_refuted', 'C16_linear_equals_complex_refuted']
+REFUTED = []          # the five defects found on the original tree were repaired in /repo (fix commits); none remains
 TRUSTED = [
     'hand-written model coq/Model/Comparers.v tied to the source by differential correspondence: harness/props/c16.py wraps the '
     'comparer (function wrapper / subclass __call__) and numpy.linalg.lstsq at run time; verdict, grade, message kind '
@@ -52,14 +51,16 @@ TRUSTED = [
     'floats enter Coq as exact dyadic rationals; norm comparisons are modelled on squares (no square roots); cases whose verdict '
     'changes when the tolerance is scaled by 1 +- 1e-5 are counted as boundary and excluded (exact-stream cases are compared as is)',
     'modelled, not verified: numpy elementwise arithmetic, np.linalg.norm, np.linalg.lstsq (oracle; its residual field is recorded and '
-    'checked against the exact Gram-Schmidt residual; its rank decision on exactly dependent columns is taken as observed), '
+    'checked against the exact Gram-Schmidt residual: the coefficients vector_span_comparer reads must be a minimiser, the residual field '
+    'LinearComparer reads must be the minimum; runs where LAPACK fails to detect the rank of exactly dependent columns are set aside and counted), '
     'IEEE rounding, the expression evaluator that turns the input strings into numbers (C03), Python float % (exact fmod + one rounding)',
     'translator translate/comparers.py (fail-closed ast matcher) for LinearComparer mode tables/defaults, MatrixEntryComparer credit '
     'branches and the MatrixGrader.check_response policy',
 ]
 ASSUMPTIONS = [
     'tolerance is a non-negative number or percentage (schema), values are finite, comparer transform is the identity',
-    'lstsq returns the documented residual field (theorems about span/phase/proportional/linear use lstsq_spec)',
+    'lstsq keeps its contract: the returned coefficients minimise the residual (span/phase completeness theorems assume `minimiser`; '
+    'soundness does not) and the residual field is the documented one (proportional/linear use lstsq_spec)',
     'between/congruence parameters are real numbers; modulus nonzero',
 ]
 
@@ -106,19 +107,23 @@ Definition outcome_eqb (a b : outcome) : bool :=
 Definition tol_scale (f : Q) (tl : tol) : tol :=
   match tl with TAbs t => TAbs (t * f) | TPct p => TPct (p * f) end.
 
-(* recorded numpy.linalg.lstsq call: columns, right-hand side, residual field (None = empty) *)
-Definition lstsq_obs_ok (r : list cvec * cvec * option Q) : bool :=
+(* recorded numpy.linalg.lstsq call: columns, right-hand side, and either the residual field (LinearComparer;
+   None = empty) or the returned coefficients (vector_span_comparer) *)
+Definition lstsq_obs_ok (r : list cvec * cvec * (option Q + list C)) : bool :=
   match r with
-  | (ws, v, Some o) =>
+  | (ws, v, inl (Some o)) =>
       (* exactly dependent columns whose rank LAPACK failed to detect: the returned number is numerical noise *)
       if (crank ws <? length ws)%nat then true
       else Qle_bool (Qabs (o - cres2 ws v)) ((1 # 1000000000) * norm2 v + (1 # 10) ^ 200)
-  | (ws, v, None) => (crank ws <? length ws)%nat || (length v <=? length ws)%nat
+  | (ws, v, inl None) => (crank ws <? length ws)%nat || (length v <=? length ws)%nat
+  | (ws, v, inr cs) =>
+      (* the contract the span theorems assume: the coefficients are a minimiser *)
+      Qle_bool (dist2 v (lincomb cs ws) - cres2 ws v) ((1 # 1000000000) * norm2 v + (1 # 10) ^ 200)
   end.
 
 Record gcase := mkCase {
   k_g : gkind; k_tol : tol; k_cmp : comparer; k_ag : Q; k_failable : nat;
-  k_samples : list csample; k_exact : bool; k_lstsq : list (list cvec * cvec * option Q); k_obs : outcome }.
+  k_samples : list csample; k_exact : bool; k_lstsq : list (list cvec * cvec * (option Q + list C)); k_obs : outcome }.
 
 Definition run_case (k : gcase) (tl : tol) : outcome :=
   grade (k_g k) tl (k_cmp k) (k_ag k) (k_failable k) (k_samples k).
@@ -322,7 +327,7 @@ def execute(spec):
 
     def lstsq(a, b, rcond=None):
         res = orig(a, b, rcond=rcond)
-        run.lstsq.append((np.array(a), np.array(b), np.array(res[1]), int(res[2])))
+        run.lstsq.append((np.array(a), np.array(b), np.array(res[1]), int(res[2]), np.array(res[0])))
         return res
 
     def go():
@@ -436,8 +441,8 @@ def case_term(spec, run):
         if len(run.calls) != 1:
             raise Unrepresentable('correlated comparer called %d times' % len(run.calls))
         for params, student in zip(call['params'], call['student']):
-            samples.append('(mkS %s %s None)' % (listlit([value_term(p) for p in params]), value_term(student)))
-        lst = list(run.lstsq)
+            samples.append('(mkS %s %s [])' % (listlit([value_term(p) for p in params]), value_term(student)))
+        lst = [(l, 'resid') for l in run.lstsq]
     else:
         lst = []
         for call in run.calls:
@@ -447,21 +452,24 @@ def case_term(spec, run):
         pending = list(run.lstsq)
         out = []
         for params, student in samples:
-            ols_t = 'None'
+            coef_t = '[]'
             if name in ('span', 'phase') and pending and isinstance(student, np.ndarray) \
                     and pending[0][1].shape == np.array(student).shape and np.array_equal(pending[0][1], np.array(student)):
-                a, b, resid, rank = pending.pop(0)
-                lst.append((a, b, resid, rank))
-                ols_t = 'None' if resid.size == 0 else '(Some %s)' % qlit(float(resid.reshape(-1)[0]))
-            out.append('(mkS %s %s %s)' % (listlit([value_term(p) for p in params]), value_term(student), ols_t))
+                rec = pending.pop(0)
+                lst.append((rec, 'coef'))
+                coef_t = listlit([c_term(z) for z in np.array(rec[4]).reshape(-1).tolist()])
+            out.append('(mkS %s %s %s)' % (listlit([value_term(p) for p in params]), value_term(student), coef_t))
         if pending:
             raise Unrepresentable('unmatched lstsq calls')
         samples = out
     lterms = []
-    for a, b, resid, rank in lst:
+    for (a, b, resid, rank, coef), what in lst:
         a = np.array(a)
         cols = [a[:, j] for j in range(a.shape[1])]
-        r_t = 'None' if resid.size == 0 else '(Some %s)' % qlit(float(np.real(resid.reshape(-1)[0])))
+        if what == 'coef':
+            r_t = '(inr %s)' % listlit([c_term(z) for z in np.array(coef).reshape(-1).tolist()])
+        else:
+            r_t = '(inl None)' if resid.size == 0 else '(inl (Some %s))' % qlit(float(np.real(resid.reshape(-1)[0])))
         lterms.append('(%s, %s, %s)' % (listlit([listlit([c_term(z) for z in col.tolist()]) for col in cols]),
                                        listlit([c_term(z) for z in np.array(b).reshape(-1).tolist()]), r_t))
     kind = spec['grader']
@@ -500,9 +508,7 @@ def eval_cases(tag, terms, shard):
 # ------------------------------------------------------------------------------------------------
 # generators: spec dicts with an `expect` entry for the property oracle
 # ------------------------------------------------------------------------------------------------
-FINDINGS = ('between_comparer-complex-typed-real', 'congruence_comparer-wraparound',
-            'vector_span_comparer-dependent-vectors', 'LinearComparer-empty-valid-modes',
-            'LinearComparer-complex-squares')
+FINDINGS = ()        # no known finding remains for C16: every violation is reported with its witness
 ABS_TOLS = [1e-6, 1e-3, 0.01]
 PCT_TOLS = ['0.01%', '1%', '5%']
 POLICIES = [{'suppress': False, 'is_raised': True, 'msg_detail': 'type'},
@@ -753,7 +759,7 @@ def gen_span(rng, n):
         mnorm = math.sqrt(sum(abs(z) ** 2 for z in member))
         expect = {'kind': 'member'}
         st = vec_str(member)
-        if kind in ('nonmember', 'dependent', 'tiny') and len(true_span) < dim:
+        if kind in ('nonmember', 'dependent', 'tiny') and len(true_span) < dim and (kind != 'dependent' or rng.random() < 0.5):
             f = rng.choice([0.125, 0.5, 2.0]) if not fine else rng.choice([0.01, 0.3, 2.0])
             if kind == 'tiny':                      # between 10^3 x tolerance and sqrt(tolerance)
                 f = 2.0 ** -16
@@ -902,6 +908,8 @@ def gen_linear(rng, n):
                            'tiny' if sampling == 'int' else 'lin'])
         if form == 'tiny':
             tolerance = rng.choice([1e-9, '0.00000001%'])
+            if a == 0:
+                a = 2
         if vector:
             E = rng.choice(['[x, y]', '[x, x^2, 1]' if sampling == 'int' else '[y, x]', '[x+y, x-y]',
                             '[0, 0]' if form == 'zero' and rng.random() < 0.5 else '[x, 2*y]'])
@@ -995,7 +1003,8 @@ def gen_equality(rng, n):
 
 
 def corpus():
-    """fixed cases that run first on every run: the hand-reproduced defects of DESIGN section 5 and their neighbours"""
+    """regression corpus, run first on every run: the witnesses of the five defects repaired in /repo (fix commits 2b5e28f,
+    70bde6b, 8b36db6, c7560ea, 521d2fc) and their neighbours -- ordinary cases that must PASS"""
     dflt = {'suppress': False, 'is_raised': True, 'msg_detail': 'type'}
     C = [
         # congruence wrap-around
@@ -1010,6 +1019,8 @@ def corpus():
         # dependent spanning vectors
         {'grader': 'Matrix', 'cmp': {'name': 'span'}, 'params': ['[1, 1, 0]', '[2, 2, 0]'], 'tolerance': '0.01%', 'student': '[0, 0, 1]',
          'expect': {'kind': 'span-nonmember', 'dist': 1.0, 'dependent': True}, 'policy': dflt},
+        {'grader': 'Matrix', 'cmp': {'name': 'span'}, 'params': ['[1, 1, 0]', '[2, 2, 0]'], 'tolerance': '0.01%', 'student': '[3*i, 3*i, 0]',
+         'expect': {'kind': 'member'}, 'policy': dflt},
         {'grader': 'Matrix', 'cmp': {'name': 'span'}, 'params': ['[1, 1, 0]', '[0, 1, 2]'], 'tolerance': '0.01%',
          'student': '[2, 2+3*i, 6*i]', 'expect': {'kind': 'member'}, 'policy': dflt},
         {'grader': 'Matrix', 'cmp': {'name': 'span'}, 'params': ['[1, 1, 0]', '[0, 1, 2]'], 'tolerance': '0.01%',
@@ -1073,7 +1084,7 @@ def shape_grid():
 
 
 # ------------------------------------------------------------------------------------------------
-# the property oracle (independent of the model): returns None or a dict(what=..., finding=...)
+# the property oracle (independent of the model): returns None or a dict(what=...)
 # ------------------------------------------------------------------------------------------------
 def accepted(run, ag):
     return run.status == 'ret' and run.out.get('ok') is not False and abs(run.out.get('grade_decimal', 0) - ag) < 1e-9 and ag > 0
@@ -1144,11 +1155,7 @@ def oracle(spec, run):
                     return None
             except Exception:
                 pass
-        finding = None
-        if name == 'between' and run.calls and isinstance(run.calls[-1]['student'], complex) and \
-                run.calls[-1]['student'].imag == 0 and is_generic(run):
-            finding = 'between_comparer-complex-typed-real'
-        return {'what': 'member of the accepted class (by construction) is not accepted: ' + describe(run), 'finding': finding}
+        return {'what': 'member of the accepted class (by construction) is not accepted: ' + describe(run)}
     if kind == 'nonmember':
         return None if rejected(run) else {'what': 'non-member is not rejected: ' + describe(run)}
     if kind == 'ungraded':
@@ -1190,9 +1197,8 @@ def oracle(spec, run):
         if dist <= lo_t - guard and (spec.get('exact') or dist <= lo_t * Fraction(999, 1000)):
             if accepted(run, ag):
                 return None
-            finding = 'congruence_comparer-wraparound' if (rejected(run) and run.status == 'ret' and abs(er - sr) > am / 2) else None
             return {'what': 'input congruent to the target within tolerance (distance %.3g, tolerance %.3g) is not accepted: %s'
-                    % (float(dist), float(lo_t), describe(run)), 'finding': finding}
+                    % (float(dist), float(lo_t), describe(run))}
         if dist >= hi_t + guard and (spec.get('exact') and dist > hi_t or dist >= hi_t * 10):
             return None if rejected(run) else {'what': 'input at distance %.3g from the class (tolerance %.3g) is not rejected: %s'
                                                % (float(dist), float(hi_t), describe(run))}
@@ -1216,11 +1222,7 @@ def oracle(spec, run):
         if exp['dist'] >= 1000 * tol:
             if rejected(run):
                 return None
-            finding = None
-            if exp.get('dependent') and run.lstsq and params_dependent(call['params']) and accepted(run, ag):
-                finding = 'vector_span_comparer-dependent-vectors'
-            return {'what': 'vector at distance %.3g from the span (tolerance %.3g) is not rejected: %s' % (exp['dist'], tol, describe(run)),
-                    'finding': finding}
+            return {'what': 'vector at distance %.3g from the span (tolerance %.3g) is not rejected: %s' % (exp['dist'], tol, describe(run))}
         return None
     if kind == 'phase':
         t = np.array(call['params'][0], dtype=complex)
@@ -1331,32 +1333,34 @@ def linear_oracle(spec, run):
     want = max([cfg[m] for m in allowed if holds[m]] + [0]) * ag
     if run.status == 'ret' and abs(run.out.get('grade_decimal', -1) - want) <= 1e-9:
         return None
-    finding = None
-    if zero and not allowed and is_generic(run):
-        finding = 'LinearComparer-empty-valid-modes'
-    elif run.status == 'ret' and run.out.get('grade_decimal', 0) > want and np.any(np.imag(S - E) != 0):
-        # the implementation's own error formulas sqrt(sum(square(d))) on the recorded samples
-        d_eq, d_off = S - E, S + np.mean(E - S) - E
-        fake = [abs(np.sqrt(np.sum(np.square(d)))) for d in (d_eq, d_off)]
-        true = [float(np.linalg.norm(d)) for d in (d_eq, d_off)]
-        if any(f <= tol < t / 1000 for f, t in zip(fake, true)):
-            finding = 'LinearComparer-complex-squares'
     return {'what': 'relations that hold among configured modes %r (zero side: %r): %r with fit errors %r, tolerance %.3g; expected grade %r, %s'
-            % (allowed, zero, sorted(m for m in holds if holds[m]), {k: float('%.3g' % v) for k, v in errs.items()}, tol, want, describe(run)),
-            'finding': finding}
+            % (allowed, zero, sorted(m for m in holds if holds[m]), {k: float('%.3g' % v) for k, v in errs.items()}, tol, want, describe(run))}
 
 
 # ------------------------------------------------------------------------------------------------
 # driver API
 # ------------------------------------------------------------------------------------------------
 def lstsq_rank_unreliable(run):
-    """LinearComparer's `rank == 1` test: columns [x, 1] with x exactly constant but rank 2 reported (or the converse).
-    LAPACK's rank decision at machine precision is then noise and so is the residual; such runs are set aside and counted."""
+    """LAPACK's rank decision at machine precision (rcond=-1) on exactly dependent columns is noise: sometimes full rank
+    is reported, and then the coefficients are of order 1e15 and the residual is garbage.  Concerns LinearComparer's
+    `rank == 1` test (columns [x, 1] with x exactly constant) and vector_span_comparer with exactly dependent spanning
+    vectors.  Such runs are set aside and counted; the converse (rank reported too low) likewise."""
     import numpy as np
-    for a, b, resid, rank in run.lstsq:
-        if a.shape[1] == 2:
+    for rec in run.lstsq:
+        a, rank = rec[0], rec[3]
+        k = a.shape[1]
+        if k == 2 and np.all(a[:, 1] == 1):                       # LinearComparer's [x, 1]
             constant = bool(np.all(a[:, 0] == a[0, 0]))
             if constant != (rank == 1):
+                return True
+            nx = float(np.linalg.norm(a[:, 0]))
+            if not constant and float(np.linalg.norm(a[:, 0] - np.mean(a[:, 0]))) < 1e-4 * nx:
+                return True          # nearly constant samples: the fit is ill-conditioned, its residual is rounding noise
+        elif k >= 2:
+            dependent = params_dependent([a[:, j] for j in range(k)])
+            if dependent != (rank < min(a.shape)) and dependent == (rank >= k):
+                return True
+            if dependent and rank >= k:
                 return True
     return False
 
@@ -1397,7 +1401,7 @@ def run(ctx):
     terms, metas = [], []
     dist = {'by_comparer': {}, 'by_expectation': {}, 'tolerance_kinds': {'absolute': 0, 'percentage': 0}, 'exact_stream': 0,
             'not_expressible': 0, 'lstsq_calls': 0, 'lstsq_rank_deficient_reported': 0, 'outcomes': {}}
-    plain, found = [], []
+    plain = []
     for spec in specs:
         r = execute(spec)
         res.oracle_evals += 1
@@ -1411,7 +1415,7 @@ def run(ctx):
         dist['lstsq_rank_deficient_reported'] += sum(1 for l in r.lstsq if l[2].size == 0)
         oc = 'ok=%r' % (r.out.get('ok'),) if r.status == 'ret' else type(r.out).__name__
         dist['outcomes'][oc] = dist['outcomes'].get(oc, 0) + 1
-        if name == 'linear' and lstsq_rank_unreliable(r):
+        if name in ('linear', 'span', 'phase') and lstsq_rank_unreliable(r):
             dist['lstsq_rank_unreliable'] = dist.get('lstsq_rank_unreliable', 0) + 1
             continue
         try:
@@ -1420,10 +1424,9 @@ def run(ctx):
             verdict = None
             res.notes.append('oracle error on %s: %r' % (spec_key(spec), e))
         if verdict:
-            w = {'key': ('finding:' + verdict['finding']) if verdict.get('finding') else spec_key(spec), 'kind': name,
-                 'what': verdict['what'], 'finding': verdict.get('finding'),
+            w = {'key': spec_key(spec), 'kind': name, 'what': verdict['what'],
                  'spec': {k: v for k, v in spec.items()}, 'observed': describe(r)}
-            (found if verdict.get('finding') else plain).append(w)
+            plain.append(w)
         if r.calls:
             res.nontrivial.add(spec_key(spec))
         try:
@@ -1435,7 +1438,7 @@ def run(ctx):
             res.samples.append({'comparer': name, 'grader': spec['grader'], 'comparer_params': spec['params'],
                                 'tolerance': spec['tolerance'], 'student_input': spec['student'], 'implementation': describe(r),
                                 'oracle_expectation': spec.get('expect')})
-    res.witnesses = plain + found          # unclassified violations first: they must never be crowded out by known ones
+    res.witnesses = plain
     res.distribution = dist
     shard = max(40, (len(terms) + 15) // 16)
     n, failing, boundary, errors = eval_cases('c16', terms, shard)
@@ -1462,26 +1465,21 @@ def replay(w):
 
 
 def classify_known(w, known_entries):
-    f = w.get('finding')
-    if not f or f not in FINDINGS:
-        return None
-    for e in known_entries:
-        if e.get('id') == f:
-            return e['id']
+    """No C16 finding remains known: every witness is a violation to be reported."""
     return None
 
 
-LEVEL_TEXT = ('Theorems over exact (Gaussian-rational) arithmetic for all vector lengths, numbers of vectors, moduli and tolerances: between (iff for float-typed '
-              'values, soundness), congruence (soundness, shift invariance, exact members, exact characterisation "congruent without crossing '
-              'the wrap"), eigenvector (iff, exact class at zero tolerance, members under any rescaling, scale invariance for percentage '
+LEVEL_TEXT = ('Theorems over exact (Gaussian-rational) arithmetic for all vector lengths, numbers of vectors, moduli and tolerances, of the '
+              'code as repaired: between (iff), congruence (iff: equal to the target modulo the modulus within tolerance; shift invariance, '
+              'exact members), eigenvector (iff, exact class at zero tolerance, members under any rescaling, scale invariance for percentage '
               'tolerances), least squares (the documented residual is the minimum distance to the complex span and is attained by explicit '
-              'coefficients; rank <= dimension; full rank spans everything), span (iff for every independent family, members, rank-deficient behaviour), phase (exact class '
-              'at zero tolerance, members, soundness), MatrixEntryComparer (entry diagram, three-way credit rule, full/zero iff), LinearComparer '
-              '(best configured mode among those that hold, the meaning of the four relations, zero rule), shape-mismatch policy for every '
-              'shape-validating comparer. Five sub-statements are false of the faithful model and carry _refuted theorems with witnesses.')
-LEVEL_NOTE = ('Partial where stated: phase "within tolerance" is '
-              'soundness + completeness for exact members + exactness at zero tolerance; equals/offset relations are characterised for real '
-              'samples (complex samples are a refuted defect). Least-squares numerics, IEEE rounding and numpy are oracles/modelled; trusted: '
+              'coefficients; rank <= dimension; full rank spans everything), span (iff for EVERY family of spanning vectors under lstsq\'s '
+              'contract, soundness unconditionally, members), phase (exact class at zero tolerance, members, soundness), MatrixEntryComparer '
+              '(entry diagram, three-way credit rule, full/zero iff), LinearComparer (best configured mode among those that hold, the meaning '
+              'of the four relations for complex samples, zero rule incl. totality), shape-mismatch policy for every shape-validating comparer.')
+LEVEL_NOTE = ('Partial where stated: phase "within tolerance" is soundness + completeness for exact members + exactness at zero tolerance. '
+              'Span/phase completeness assumes lstsq returns a minimiser (checked on every recorded call; LAPACK rank noise on exactly '
+              'dependent columns is set aside and counted). Least-squares numerics, IEEE rounding and numpy are oracles/modelled; trusted: '
               'Coq kernel, harness/props/c16.py, translate/comparers.py; no axioms.')
 TECHNIQUE = ('Coq proof (Q / Gaussian rationals, Gram-Schmidt minimality by orthogonality, lra/nra/field) + vm_compute differential '
              'correspondence on recorded comparer and lstsq I/O + source-to-Gallina translator for the declarative fragments')
